@@ -389,6 +389,12 @@ class Tokenizer(object):
 
             # End of line
             elif code == CC_EOL:
+                # TeX throws away whatever is left on the line.
+                # ord(token) != 10 is the same as saying token != '\n'
+                # but it is much faster.
+                if ord(char) != 10:
+                    self.lineNumber += 1
+                    self.readline()
                 state = self.state
                 if state == STATE_S:
                     self.state = STATE_N
@@ -398,11 +404,6 @@ class Tokenizer(object):
                     code = CC_SPACE
                     self.state = STATE_N
                 elif state == STATE_N:
-                    # ord(token) != 10 is the same as saying token != '\n'
-                    # but it is much faster.
-                    if ord(char) != 10:
-                        self.lineNumber += 1
-                        self.readline()
                     token = EscapeSequence('par')
                     # Prevent adjacent paragraphs
                     if prev == token:
